@@ -156,6 +156,14 @@ def run(ctx):
             polarity.check_table(r4, t, lambda sc: sc["d"] == 0, "NoCodeDecoder::can_decode", loc(f.sp), require_labels=("d",))
     r4.floor(6, "threshold scenarios")
 
+    # ---- R5 FDT passes may be lost too: what was decoded before the FDT attached is delivered when it attaches ---------------
+    r5 = ctx.rule("C02.R5", "losing FDT packets only delays the object: when a later FDT pass attaches, attach_fdt records the instance id (and the "
+                            "other fields init_object_writer requires) before it calls init_object_writer, replays the cached packets and flushes the "
+                            "blocks already decoded (shared with C16.R2)", "DOM+PAIR")
+    from . import c16
+    c16.attach_order_rule(ctx, r5)
+    r5.floor(3, "attach ordering facts")
+
 
 def _orient_leaf(t, label, leaf_regex):
     for k, lab in t.seen_sign.items():
